@@ -268,8 +268,9 @@ func (codecHTTPBody) Unmarshal(data []byte, v interface{}) error {
 func (codecHTTPBody) Name() string { return "body" }
 
 func (codecHTTPBody) ReadNext(b []byte, r io.Reader, limit int) ([]byte, int, error) {
-	var total int
-	for {
+	// Bytes carried over from the previous call belong to this chunk.
+	total := len(b)
+	for total < limit {
 		if len(b) == cap(b) {
 			// Add more capacity (let append pick how much).
 			b = append(b, 0)[:len(b)]
@@ -277,13 +278,19 @@ func (codecHTTPBody) ReadNext(b []byte, r io.Reader, limit int) ([]byte, int, er
 		n, err := r.Read(b[len(b):cap(b)])
 		b = b[:len(b)+n]
 		total += int(n)
-		if total > limit {
-			total = limit
-		}
-		if err != nil || total == limit {
+		if err != nil {
+			if err == io.EOF && total > limit {
+				// More than one chunk is buffered, EOF is reported
+				// once the carried over bytes are drained.
+				return b, limit, nil
+			}
+			if total > limit {
+				total = limit
+			}
 			return b, total, err
 		}
 	}
+	return b, limit, nil
 }
 
 func (codecHTTPBody) WriteNext(w io.Writer, b []byte) (int, error) {
